@@ -292,7 +292,9 @@ class SSHSession(Session):
         if hostkey_b64:
             # If we need to connect with a specific hostkey, negotiate for only its type
             hostkey_obj = None
-            for key_cls in [paramiko.DSSKey, paramiko.Ed25519Key, paramiko.RSAKey, paramiko.ECDSAKey]:
+            # (a key class that this paramiko release does not provide, e.g. DSSKey in paramiko >= 4, is skipped)
+            key_classes = [getattr(paramiko, name, None) for name in ("DSSKey", "Ed25519Key", "RSAKey", "ECDSAKey")]
+            for key_cls in [cls for cls in key_classes if cls is not None]:
                 try:
                     hostkey_obj = key_cls(data=base64.b64decode(hostkey_b64))
                 except paramiko.SSHException:
